@@ -1627,6 +1627,13 @@ class Field(SupportComplexDataType):
         return super(Field, self).add(obj)
 
     def parse_child(self, text, child_name=None, reference=None):
+        if self.name in ('MSH_1', 'MSH_2'):
+            # the separator characters are taken as they are: they must not be split as if they were text
+            s = SubComponent(datatype='ST', value=text, version=self.version,
+                             validation_level=self.validation_level)
+            c = Component(datatype='ST', version=self.version, validation_level=self.validation_level)
+            c.add(s)
+            return c
         kwargs = {'encoding_chars': self.encoding_chars, 'reference': reference, 'name': child_name}
         if reference is not None:
             kwargs['datatype'] = reference[2]
@@ -1673,9 +1680,12 @@ class Field(SupportComplexDataType):
 
     def _set_value(self, value):
         if self.name in ('MSH_1', 'MSH_2'):
+            # the separator characters are taken as they are: they must not be split as if they were text
+            s = SubComponent(datatype='ST', value=value, version=self.version,
+                             validation_level=self.validation_level)
             c = Component(datatype='ST', version=self.version,
                           validation_level=self.validation_level)
-            c.value = value
+            c.add(s)
             self.add(c)
         else:
             super(Field, self)._set_value(value)
